@@ -2,9 +2,9 @@ package rules
 
 import (
 	"fmt"
-	"sort"
 	"go/token"
 	"go/types"
+	"sort"
 	"strings"
 
 	"yv/internal/prog"
@@ -884,6 +884,100 @@ func init() {
 			}
 			if len(names) < 5 {
 				x.C.Vacuous(x.id()+" steps", len(names), 5)
+			}
+		}})
+}
+
+func init() {
+	register(&Rule{ID: "CP.flow", Min: 4, Text: "checkpoint provenance through the push: every implementation of Database.CreateChangeInfos returns, on each success exit, a checkpoint computed from the checkpoint it was given (never a constant or zero value: an empty or all-duplicate push must hand the stored client checkpoint back unchanged, otherwise the acknowledgement and the own-change filter of the pull are computed from 0); the push function's returned checkpoint is computed from that result, and the checkpoint it hands to CreateChangeInfos is computed from the client's stored checkpoint (ClientInfo.Checkpoint)",
+		Run: func(x *Ctx) {
+			p := x.pipe()
+			if !p.ok {
+				return
+			}
+			cpT := x.P.Named("pkg/document/change.Checkpoint")
+			im := x.P.IfaceMethod(dbPkg + ".Database.CreateChangeInfos")
+			if cpT == nil || im == nil || x.P.Named(dbPkg+".Database") == nil {
+				x.C.Unresolved(x.id(), "change.Checkpoint / Database.CreateChangeInfos")
+				return
+			}
+			n := 0
+			var impls []*ssa.Function
+			for _, t := range x.P.Implementers(x.P.Named(dbPkg + ".Database")) {
+				if m := x.P.MethodOf(t, "CreateChangeInfos"); m != nil {
+					impls = append(impls, m)
+				}
+			}
+			for _, fn := range impls {
+				var cpParam *ssa.Parameter
+				for _, pm := range fn.Params {
+					if isNamed(pm.Type(), cpT) {
+						cpParam = pm
+					}
+				}
+				ri := -1
+				res := fn.Signature.Results()
+				for i := 0; i < res.Len(); i++ {
+					if isNamed(res.At(i).Type(), cpT) {
+						ri = i
+					}
+				}
+				if cpParam == nil || ri < 0 {
+					x.C.Unresolved(x.id(), prog.FnName(fn)+" checkpoint parameter/result")
+					continue
+				}
+				fromParam := func(w ssa.Value) bool {
+					return prog.Reaches(w, func(u ssa.Value) bool { return u == ssa.Value(cpParam) })
+				}
+				i := 0
+				for _, r := range prog.Returns(fn) {
+					if !prog.ReturnsNilError(r) {
+						continue
+					}
+					i++
+					n++
+					v := prog.ReturnValue(r, ri)
+					x.check(prog.DependsOn(v, fromParam), fmt.Sprintf("func=%s success-return#%d checkpoint-from-parameter", prog.FnName(fn), i), x.pos(r),
+						"the returned checkpoint is computed from the checkpoint passed in", "a success exit returns a checkpoint that does not derive from the one passed in (e.g. the initial checkpoint): the client's acknowledged ClientSeq/ServerSeq fall back and its own changes are delivered to it again")
+				}
+			}
+			if n < 2 {
+				x.C.Vacuous(x.id()+" success returns", n, 2)
+			}
+			// the pusher
+			k := "func=" + prog.FnName(p.Pusher)
+			cpM := x.P.FnObj(dbPkg + ".(*ClientInfo).Checkpoint")
+			var cpArg ssa.Value
+			for _, a := range p.PushCall.Common().Args {
+				if isNamed(a.Type(), cpT) {
+					cpArg = a
+				}
+			}
+			if cpM == nil || cpArg == nil {
+				x.C.Unresolved(x.id(), "ClientInfo.Checkpoint / checkpoint argument of CreateChangeInfos")
+				return
+			}
+			x.check(prog.DependsOn(cpArg, func(w ssa.Value) bool {
+				c, ok := prog.Strip(w).(*ssa.Call)
+				return ok && sameFunc(prog.CallObj(c), cpM)
+			}), k+" pushed-checkpoint-from-stored-client-checkpoint", x.pos(p.PushCall), "the checkpoint handed to the store derives from ClientInfo.Checkpoint", "the checkpoint handed to CreateChangeInfos does not derive from the client's stored checkpoint")
+			res := p.Pusher.Signature.Results()
+			for ri := 0; ri < res.Len(); ri++ {
+				if !isNamed(res.At(ri).Type(), cpT) {
+					continue
+				}
+				i := 0
+				for _, r := range prog.Returns(p.Pusher) {
+					if !prog.ReturnsNilError(r) {
+						continue
+					}
+					i++
+					v := prog.ReturnValue(r, ri)
+					x.check(prog.DependsOn(v, func(w ssa.Value) bool {
+						e, ok := prog.Strip(w).(*ssa.Extract)
+						return ok && e.Tuple == p.PushCall.Value()
+					}), fmt.Sprintf("%s success-return#%d checkpoint-from-store", k, i), x.pos(r), "the checkpoint after push is the one the store returned", "the push returns a checkpoint that is not the one CreateChangeInfos returned")
+				}
 			}
 		}})
 }
